@@ -151,6 +151,9 @@ def userff_case(draw):
             blank=draw(st.booleans()), comment=draw(st.booleans()),
             # equivalent spellings of the same residue rule (the names are regular expressions)
             spell=draw(st.sampled_from([0, 0, 0, 1, 2, 3, 4])),
+            # a rule in front of this residue's rules that matches NO residue of the parameter file (a names
+            # file written for a larger force field) and renames one of this residue's atoms to another
+            phantom=draw(st.sampled_from([None, None, None, [0, 1], [1, 0], [2, 5], [3, 1]])),
         ))  # fmt: skip
     his_group = draw(st.booleans())
     return dict(part="userff", residues=res, galias=galias, his_group=his_group,
@@ -233,6 +236,12 @@ def build_pair(case):
                 fired.add("alias")
             sec.append("  </residue>")
             secs.append("\n".join(sec))
+        if rd.get("phantom") and len(atoms) >= 2:
+            a_, b_ = atoms[rd["phantom"][0] % len(atoms)], atoms[rd["phantom"][1] % len(atoms)]
+            if a_ != b_:
+                secs.insert(0, f"  <residue>\n    <name>ZZ[0-9]Q</name>\n    <atom>\n      <name>{a_}</name>\n      "
+                               f"<useatomname>{b_}</useatomname>\n    </atom>\n  </residue>")
+                fired.add("phantom-rule")
         sections[k] = secs
         used_native.add(native)
     names = ["<?xml version='1.0'?>", "<ff>"]
@@ -429,7 +438,10 @@ def userff_e2e_case(draw):
     desc = draw(e2e.structure(max_chains=2, nmax=4, contact=False, variants=0.2))
     return dict(part="userff-e2e", desc=desc, base=draw(st.sampled_from(ffmodel.FFS)),
                 dr=[draw(st.sampled_from([0.0123, 0.25, 0.5, 0.0007])) for _ in range(2)],
-                opts=draw(st.sampled_from([[], ["--noopt"], ["--whitespace"]])))  # fmt: skip
+                opts=draw(st.sampled_from([[], ["--noopt"], ["--whitespace"]])),
+                # how the two files are named and addressed: absolute paths, bare relative names, relative names
+                # that look like the shipped files (an edited copy of AMBER.DAT in the working directory)
+                naming=draw(st.sampled_from(["abs", "abs", "rel", "rel-shipped", "rel-shipped-lower", "rel-dotted"])))  # fmt: skip
 
 
 def check_userff_e2e(case):
@@ -455,8 +467,13 @@ def check_userff_e2e(case):
                 continue
             rows.append("\t".join([f[0], f[1], f[2], f"{float(f[3]) + dr:.4f}"] + f[4:5]))
         udat = "\n".join(rows) + "\n"
-        r = pipeline.run(s.text(), ["--userff=@DIR@/u.dat", "--usernames=@DIR@/u.names", "--keep-chain", *case["opts"]],
-                         extra_files={"u.dat": udat, "u.names": names_text})  # fmt: skip
+        nm = case.get("naming", "abs")
+        fdat, fnames = {"abs": ("@DIR@/u.dat", "@DIR@/u.names"), "rel": ("u.dat", "u.names"),
+                        "rel-shipped": (f"{base}.DAT", f"{base}.names"), "rel-shipped-lower": (f"{base.lower()}.dat", f"{base.lower()}.names"),
+                        "rel-dotted": ("my.ff.v2.DAT", "my.ff.v2.names")}[nm]  # fmt: skip
+        res.label(f"naming={nm}")
+        r = pipeline.run(s.text(), [f"--userff={fdat}", f"--usernames={fnames}", "--keep-chain", *case["opts"]],
+                         extra_files={fdat.replace("@DIR@/", ""): udat, fnames.replace("@DIR@/", ""): names_text})  # fmt: skip
         if not r.ok:
             res.label("run-failed")
             continue
